@@ -80,6 +80,7 @@ type lcRig struct {
 	waitRet  bool
 	stopped  bool
 	underLock int
+	rush      bool // a signal handler is waiting for the shutdown lock: callbacks under it do not park
 }
 
 func (r *lcRig) noLockHeld() bool { return r.underLock == 0 }
@@ -207,6 +208,11 @@ func init() {
 }
 
 func (r *lcRig) ev(kind, inst, arg string) {
+	if r.cleanup {
+		// the history was judged already; what the released goroutines do while
+		// the run is torn down races for real and is not part of the record
+		return
+	}
 	r.mu.Lock()
 	r.trace = append(r.trace, lcEvent{step: r.c.Step, kind: kind, inst: inst, arg: arg})
 	r.mu.Unlock()
@@ -293,9 +299,11 @@ func (r *lcRig) callback(label, kind string) error {
 		// (that is how the force-quit on a second SIGINT is reached).
 		r.c.Probe("callback-under-process-shutdown-lock")
 		r.cbSeq++
-		r.underLock++
-		r.c.Park(fmt.Sprintf("hook.cbl/%s/%s#%d", label, kind, r.cbSeq), "cb:"+label)
-		r.underLock--
+		if !r.rush {
+			r.underLock++
+			r.c.Park(fmt.Sprintf("hook.cbl/%s/%s#%d", label, kind, r.cbSeq), "cb:"+label)
+			r.underLock--
+		}
 		if r.cleanup {
 			return nil
 		}
@@ -607,9 +615,22 @@ func (r *lcRig) events(add func(sim.Event)) {
 	if r.started && r.sigLeft > 0 {
 		for _, s := range []os.Signal{os.Interrupt, syscall.SIGTERM, syscall.SIGQUIT, syscall.SIGHUP} {
 			s := s
-			if !r.noLockHeld() && (s == syscall.SIGTERM || s == os.Interrupt && r.nINT == 0) {
-				// these handlers would wait for the sync.Once held by the parked callback
-				// (a SECOND SIGINT force-quits without taking any lock)
+			contended := !r.noLockHeld() && (s == syscall.SIGTERM || s == os.Interrupt && r.nINT == 0)
+			if contended {
+				// This handler will wait for the sync.Once / mutex held by the parked
+				// callback. A goroutine waiting for a mutex is not durably blocked, so
+				// quiescence cannot be awaited while a callback is parked under that
+				// lock: from here until the lock is free again the callbacks under the
+				// lock stop being scheduling points (r.rush) and the parked one is let
+				// go, so the overlapping handlers run to their next durable block
+				// within this one step.
+				add(sim.Event{Key: "sig/" + sigNames[s] + "-contended", Actor: "signals", Weight: 1, Fire: func() {
+					r.sigLeft--
+					r.c.Fault("signal-" + sigNames[s] + "-while-shutdown-callbacks-run")
+					r.rush = true
+					r.sendSignal(s)
+					r.c.ReleasePrefix("hook.cbl/")
+				}})
 				continue
 			}
 			w := 1
